@@ -1,3 +1,5 @@
 import FrappyProofs.Lemmas.Logging
+import FrappyProofs.Lemmas.Poller
 import FrappyProofs.Lemmas.Rotate
+import FrappyProofs.Props.C13
 import FrappyProofs.Props.C20
